@@ -16,10 +16,13 @@ type M = PrefixMap<P, u32>;
 
 /// the universe of stored prefixes: all prefixes of length <= 2 (7 keys, 128 maps)
 const KEYS: [P; 7] = [(0, 0), (0, 1), (128, 1), (0, 2), (64, 2), (128, 2), (192, 2)];
-/// the smaller universe for pairs of maps (5 keys, 32 maps, 1024 pairs)
-const PKEYS: [P; 5] = [(0, 0), (0, 1), (128, 1), (0, 2), (64, 2)];
+/// the universe for pairs of maps: 6 keys, 64 maps, 4096 pairs (the quick tier uses the first 5 keys only).
+/// 0/3 below 0/2 gives a node of one operand strictly below a leaf of the other.
+const PKEYS: [P; 6] = [(0, 0), (0, 1), (128, 1), (0, 2), (64, 2), (0, 3)];
 /// view roots / query prefixes: stored, branching, virtual (on an edge) and absent ones
 const ROOTS: [P; 9] = [(0, 0), (0, 1), (128, 1), (0, 2), (64, 2), (128, 2), (192, 2), (32, 3), (255, 8)];
+/// view roots for the operands of a pair
+const PROOTS: [(u32, u32); 4] = [(0, 0), (1, 1), (1, 0), (3, 1)];
 
 #[derive(Clone, Copy, Debug, PartialEq)]
 struct Case {
@@ -47,6 +50,23 @@ fn build(keys: &[P], mask: u32, mode: u32, base: u32) -> M {
             } else {
                 m.remove(k);
             }
+        }
+    }
+    m
+}
+
+fn build_pair<V>(mask: u32, policy: u32, val: impl Fn(u32) -> V) -> PrefixMap<P, V> {
+    let mut m = PrefixMap::new();
+    let selected = |i: usize| mask >> i & 1 == 1;
+    let present = |i: usize| selected(i) || policy == 1 || (policy == 2 && i != 5);
+    for (i, k) in PKEYS.iter().enumerate() {
+        if present(i) {
+            m.insert(*k, val(i as u32));
+        }
+    }
+    for (i, k) in PKEYS.iter().enumerate() {
+        if present(i) && !selected(i) {
+            m.remove_keep_tree(k);
         }
     }
     m
@@ -90,6 +110,11 @@ impl<'a> Held<'a> {
         Held { refs: Vec::new(), log: Vec::new() }
     }
     fn push(&mut self, p: &P, v: &'a mut u32) {
+        let addr = v as *const u32 as usize;
+        assert!(
+            self.refs.iter().all(|(_, w)| &**w as *const u32 as usize != addr),
+            "two live mutable references to one entry: {p:?} was handed out twice"
+        );
         self.refs.push((*p, v));
     }
     fn poke(&mut self) {
@@ -338,6 +363,16 @@ impl<'a> Held2<'a> {
     fn new() -> Self {
         Held2 { l: vec![], r: vec![], log_l: vec![], log_r: vec![] }
     }
+    fn push_l(&mut self, p: P, v: &'a mut u32) {
+        let addr = v as *const u32 as usize;
+        assert!(self.l.iter().all(|(_, w)| &**w as *const u32 as usize != addr), "two live mutable references to one entry: {p:?} (left operand) was handed out twice");
+        self.l.push((p, v));
+    }
+    fn push_r(&mut self, p: P, v: &'a mut u64) {
+        let addr = v as *const u64 as usize;
+        assert!(self.r.iter().all(|(_, w)| &**w as *const u64 as usize != addr), "two live mutable references to one entry: {p:?} (right operand) was handed out twice");
+        self.r.push((p, v));
+    }
     fn poke(&mut self) {
         for (p, v) in self.l.iter_mut() {
             **v += 1000;
@@ -348,15 +383,6 @@ impl<'a> Held2<'a> {
             self.log_r.push((*p, 1000));
         }
     }
-}
-
-fn to2(m: &M) -> M2 {
-    // same shape, other value type; built by the same history is not needed for aliasing, shape is:
-    let mut x = M2::new();
-    for (p, v) in m.iter() {
-        x.insert(*p, *v as u64);
-    }
-    x
 }
 
 fn content2(m: &M2) -> Vec<(P, u32)> {
@@ -377,10 +403,10 @@ fn body_pair(op: u32, a: &mut M, b: &mut M2, ra: P, rb: P) -> (Vec<(P, u32)>, Ve
                     match it.next() {
                         Some((p, l, r)) => {
                             if let Some(l) = l {
-                                h.l.push((*p, l));
+                                h.push_l(*p, l);
                             }
                             if let Some(r) = r {
-                                h.r.push((*p, r));
+                                h.push_r(*p, r);
                             }
                         }
                         None => break,
@@ -393,8 +419,8 @@ fn body_pair(op: u32, a: &mut M, b: &mut M2, ra: P, rb: P) -> (Vec<(P, u32)>, Ve
                     h.poke();
                     match it.next() {
                         Some((p, l, r)) => {
-                            h.l.push((*p, l));
-                            h.r.push((*p, r));
+                            h.push_l(*p, l);
+                            h.push_r(*p, r);
                         }
                         None => break,
                     }
@@ -407,7 +433,7 @@ fn body_pair(op: u32, a: &mut M, b: &mut M2, ra: P, rb: P) -> (Vec<(P, u32)>, Ve
                     h.poke();
                     match it.next() {
                         Some(x) => {
-                            h.l.push((*x.prefix, x.value));
+                            h.push_l(*x.prefix, x.value);
                             if let Some((rp, rv)) = x.right {
                                 rights.push((*rp, *rv));
                             }
@@ -422,7 +448,7 @@ fn body_pair(op: u32, a: &mut M, b: &mut M2, ra: P, rb: P) -> (Vec<(P, u32)>, Ve
                 loop {
                     h.poke();
                     match it.next() {
-                        Some((p, l)) => h.l.push((*p, l)),
+                        Some((p, l)) => h.push_l(*p, l),
                         None => break,
                     }
                 }
@@ -539,15 +565,17 @@ fn cases(quick: bool) -> Vec<Case> {
             }
         }
     }
-    let roots: &[(u32, u32)] = if quick { &[(0, 0)] } else { &[(0, 0), (1, 1), (1, 0), (0, 1), (3, 1), (1, 3), (7, 1), (2, 2)] };
-    for &mode in if quick { &[0u32][..] } else { &[0u32, 1][..] } {
-        for a in 0..32u32 {
-            for b in 0..32u32 {
+    let roots: &[(u32, u32)] = if quick { &PROOTS[..1] } else { &PROOTS[..] };
+    let nmaps = if quick { 32u32 } else { 64u32 };
+    for &mode in if quick { &[0u32][..] } else { &[0u32, 1, 2, 3][..] } {
+        for a in 0..nmaps {
+            for b in 0..nmaps {
                 if quick && (a + b) % 2 == 1 {
                     continue;
                 }
                 for op in 0..4 {
-                    for &(ra, rb) in roots {
+                    // the mixed policies (2, 3) with two of the four root pairs
+                    for &(ra, rb) in if mode >= 2 { &roots[..2.min(roots.len())] } else { roots } {
                         v.push(Case { body: B_PAIR + op, mode, a, b, ra, rb });
                     }
                 }
@@ -559,20 +587,17 @@ fn cases(quick: bool) -> Vec<Case> {
 
 fn run_case(c: Case) {
     if c.body >= B_PAIR && c.body < B_SAME {
-        let mut a = build(&PKEYS, c.a, c.mode, 10);
-        let mut b = to2(&build(&PKEYS, c.b, c.mode, 500));
-        if c.mode == 1 {
-            // keep the value-less nodes on the right side as well
-            b = M2::new();
-            for (i, k) in PKEYS.iter().enumerate() {
-                b.insert(*k, 500 + i as u64);
-            }
-            for (i, k) in PKEYS.iter().enumerate() {
-                if c.b >> i & 1 == 0 {
-                    b.remove_keep_tree(k);
-                }
-            }
-        }
+        // construction policies of the two operands: 0 plain insertion; 1 every unselected key is inserted and then
+        // taken out with remove_keep_tree (all six nodes stay); 2 the same, except that 0/3 is absent unless selected
+        // (this leaves value-less LEAVES, e.g. 0/2, above nodes of the other operand)
+        let (pa, pb) = match c.mode {
+            0 => (0, 0),
+            1 => (1, 1),
+            2 => (0, 2),
+            _ => (2, 0),
+        };
+        let mut a: M = build_pair(c.a, pa, |i| 10 + i);
+        let mut b: M2 = build_pair(c.b, pb, |i| 500 + i as u64);
         let (a0, b0) = (a.clone(), b.clone());
         let (ll, lr) = body_pair(c.body - B_PAIR, &mut a, &mut b, ROOTS[c.ra as usize], ROOTS[c.rb as usize]);
         check(&a, &a0, &ll, "left operand");
